@@ -24,6 +24,7 @@ Directives (comment lines starting with `//@`, arguments shell-quoted):
   //@ insert NAME at-end : TEXT                           before the last non-blank line of the piece (proof block before a tail expression)
   //@ expect-fail FUNCTION                                vacuity guard: this function must NOT verify
   //@ copy NEW from OLD                                   duplicate a piece as processed so far
+  //@ any-of F1 F2 ...                                    alternative contracts over the same text: at least one of the functions must verify, failing members are then ignored
   //@ weak FUNCTION refuted-by W1 W2 ...                  FUNCTION failing to verify counts as a violation only if a witness W (same body, inputs pinned
                                                           to concrete values, `ensures` the negated contract) verifies; otherwise the unit is undecided
 Placeholders `/*@NAME*/` in the template are replaced by the processed text.
@@ -42,6 +43,7 @@ class VUnit:
         self.name = None; self.file = None; self.fns = []; self.tier = "quick"; self.pair = None
         self.role = "contract"
         self.weak = {}
+        self.any_of = []
         self.cls = "unbounded"; self.expect_fail = []; self.timeout = 300; self.bound = ""; self.mem = "light"
 
     @property
@@ -249,6 +251,10 @@ def build(template_path, repo=None):
         elif op == "copy":
             # //@ copy NEW from OLD : a second copy of the piece as processed so far (later directives on either name do not affect the other)
             pieces[t[1]] = pieces[t[3]]
+        elif op == "any-of":
+            # //@ any-of F1 F2 ... : alternative contracts over the same extracted text (e.g. the two orientations of a tie-break that the property
+            # leaves open).  At least one must verify; the members that fail are then not counted.  If none verifies, all of them are reported.
+            u.any_of.append(t[1:])
         elif op == "weak":
             # //@ weak FUNCTION refuted-by W1 W2 ... : FUNCTION's obligation needs a procedure the solver is incomplete for (nonlinear real arithmetic).
             # If it is not proved, the unit is `violated` only when one of the witness functions verifies - a witness pins the inputs to concrete values
@@ -324,6 +330,13 @@ def run(template_path, workdir, repo=None):
     funcs_nw = [f for f in funcs if short(f["function"]) not in witnesses]
     real = [f for f in funcs_nw if not is_expected_fail(f["function"])]
     guards = [f for f in funcs_nw if is_expected_fail(f["function"])]
+    for grp in u.any_of:
+        mem = [f for f in real if short(f["function"]) in grp]
+        if any(f["ok"] for f in mem):
+            skipped = [f["function"] for f in mem if not f["ok"]]
+            real = [f for f in real if f["ok"] or short(f["function"]) not in grp]
+            if skipped:
+                res.setdefault("alternatives_not_taken", []).extend(skipped)
     res["obligations"] = len(real)
     res["discharged"] = sum(1 for f in real if f["ok"])
     if re.search(r"Resource limit \(rlimit\) exceeded|rlimit exceeded|solver.*(crash|unknown)", p.stderr, flags=re.I):
